@@ -31,6 +31,11 @@ for _n in ("clienttxn", "clienttxnLive", "clienttxnA", "clienttxnB", "clienttxnL
 MC_DEPTH["MC_clienttxn"] = (9, 11)
 GEN_DEPTH["GEN_clienttxnA"] = (7, 8)
 GEN_DEPTH["GEN_clienttxnB"] = (6, 7)
+for _n in ("life", "lifeA", "lifeB"):
+    MODULE_OF["MC_" + _n] = MODULE_OF["GEN_" + _n] = "TurnLife.tla"
+MC_DEPTH["MC_life"] = (6, 7)
+GEN_DEPTH["GEN_lifeA"] = (6, 7)
+GEN_DEPTH["GEN_lifeB"] = (5, 6)
 for _n in ("framer", "bindreply", "codec"):
     MODULE_OF["MC_" + _n] = MODULE_OF["GEN_" + _n] = "Codec.tla" if _n == "codec" else "Framer.tla"
     MC_DEPTH["MC_" + _n] = None
@@ -164,6 +169,14 @@ PROPS = {
                              "(probability 0, 0.3, 0.6 or 0.85 per transmission), idle phases of 10-55 min, 4 peers on 2 IPs; probe datagrams both ways; Close at a random moment, in a quarter of the executions right after the nonce has gone stale",
                              "'at once' is read as: at once on a loss-free network, and within one transaction (8 s) when transmissions are lost",
                              "'any number of peers' is not explored (4 peers); with several hundred peers the permission refresh exceeds the server's inbound MTU (observation D13 in DESIGN.md)"]),
+    "C15": dict(title="server resources and lifecycle events balance through every teardown", level="model_checking",
+                run=core_run(["MC_life", "MC_tcp"], ["GEN_lifeA", "GEN_lifeB", "GEN_tcpB"]),
+                assumptions=BASE_ASSUME + ["after every step the lifecycle callbacks made during the step are compared with the spec's EvDiff (created/deleted events per allocation, permission, channel), "
+                                           "the relay sockets handed out by the harness generator with the live allocations (open count, closed at most once)",
+                                           "every path ends with Server.Close followed by a two-hour drain: created - deleted must be 0 for every key, AllocationCount 0, every relay socket closed, and no lifecycle event may arrive late (a timer that outlived its allocation); "
+                                           "a goroutine that outlives the teardown makes the synctest bubble fail and is reported as a crash",
+                                           "teardown causes: lifetime expiry, Refresh(0), relay socket read error, Server.Close (UDP allocations); control-connection close, bind timeout, either side closing (TCP allocations, via TurnTCP.tla); "
+                                           "teardown in the middle of a slow lifecycle callback is covered by the gated schedules of C18, not here"]),
     "C16": dict(title="TCP relay: bind once, by the owner, within 30 s, bytes intact", level="model_checking",
                 run=core_run(["MC_tcp"], ["GEN_tcpA", "GEN_tcpB"]),
                 assumptions=["control, relayed, peer and data connections are in-memory buffered streams (harness/memstream.go); connection ids are aliased by order of appearance",
